@@ -119,8 +119,28 @@ PHONE_TEMPLATES = ['(425) 555-01dd', '425-555-0ddd', '+1 425 555 0ddd', '1-425-5
 
 
 def body(ch):
-    part = ch.pick('part', ('ipv4', 'ipv4-near', 'ipv6', 'ipv6-hextet', 'ipv6-near', 'ip-several', 'guid', 'guid-near', 'email', 'url',
+    part = ch.pick('part', ('first-use', 'ipv4', 'ipv4-near', 'ipv6', 'ipv6-hextet', 'ipv6-near', 'ip-several', 'guid', 'guid-near', 'email', 'url',
                             'hashtag', 'mention', 'phone'))
+    if part == 'first-use':
+        # the first query a freshly built model answers must not write to the cached model (lazily filled tables make the
+        # answer depend on who else is calling at that moment): structural fingerprint before / after, per model
+        from vmc import state
+        from recognizers_sequence import SequenceRecognizer
+        name, q = ch.pick('model', (('ip_address', 'ping 10.0.0.1 or fe80::1'), ('guid', 'id 0123456789abcdef0123456789abcdef'),
+                                    ('email', 'mail a@b.com'), ('url', 'see example.com'), ('phone_number', 'call 425-555-0123'),
+                                    ('hashtag', 'say #abc'), ('mention', 'hi @abc')))
+        cul = ch.pick('culture', ('en-us', 'zh-cn'))
+        state.reset_cache()
+        m = getattr(SequenceRecognizer(cul), 'get_%s_model' % name)(cul, True)
+        before = state.fingerprint(state.cache_roots())
+        got = ents(m, q)
+        after = state.fingerprint(state.cache_roots())
+        d = state.diff_fingerprints(before, after)
+        if d['n']:
+            ch.fail('first-use-writes|%s|%s' % (name, cul), {'model': name, 'culture': cul, 'query': q, 'state_diff': d, 'observed': got})
+        else:
+            ch.ok(case=('first-use', name, cul), nontrivial=bool(got), outcome='first-use')
+        return
     if part == 'ipv4':
         pos = ch.pick('position', range(4))
         others = ch.pick('others', list(itertools.product(CFG['b'], repeat=3)))
